@@ -1012,7 +1012,7 @@ class Gridder(GeospatialGrid):
             subsegment_distance_fractions = np.divide(
                 subsegment_distances,
                 segment_distances_repeated,
-                out=np.zeros_like(subsegment_distances),
+                out=np.ones_like(subsegment_distances),
                 where=segment_distances_repeated != 0,
             )
 
